@@ -103,17 +103,17 @@ theorem handler_keeps (pre : Pre s0 w fresh0) :
 /-- **A commit that fails in phase 2 leaves every node as it was** — for every fault except a `failAfter` on the
 flip write itself (see the header). -/
 theorem commit_phase2_failure_keeps_views (pre : Pre s0 w fresh0) (pre2 : Pre2 s0 w fresh0)
-    (fault : Option Fault) (tid : Tid) (n : Nat) (r1 r2 : Run)
+    (fault : Option Fault) {cs0 : Step} (tid : Tid) (n : Nat) (r1 r2 : Run)
     (hnf : ¬ ∃ f, fault = some f ∧ f.cls = .regUpdateNoLocks ∧ f.kind = .failAfter)
-    (h1 : phase1 w n { s := s0, tid := tid, fault := fault, fresh := fresh0 } = .ok ((), r1))
+    (h1 : phase1 w n { s := s0, tid := tid, fault := fault, fresh := fresh0, cs := cs0 } = .ok ((), r1))
     (h2 : phase2 w r1 = .error r2) :
     ∀ lid, (s0.view lid).isSome →
-      (commit w n { s := s0, tid := tid, fault := fault, fresh := fresh0 }).2.s.view lid = s0.view lid := by
-  have hj0 : J0 s0 w fresh0 { s := s0, tid := tid, fault := fault, fresh := fresh0 } :=
+      (commit w n { s := s0, tid := tid, fault := fault, fresh := fresh0, cs := cs0 }).2.s.view lid = s0.view lid := by
+  have hj0 : J0 s0 w fresh0 { s := s0, tid := tid, fault := fault, fresh := fresh0, cs := cs0 } :=
     ⟨⟨SInv.init s0 w fresh0 pre, fun _ hp => hp⟩, rfl, rfl⟩
   have hst := staged_phase1 pre pre2 n _ hj0
   rw [h1] at hst
-  have hf1 := h_phase1 (f0 := fault) w n { s := s0, tid := tid, fault := fault, fresh := fresh0 } ⟨rfl, rfl, rfl⟩
+  have hf1 := h_phase1 (f0 := fault) w n { s := s0, tid := tid, fault := fault, fresh := fresh0, cs := cs0 } ⟨rfl, rfl, rfl⟩
   rw [h1] at hf1
   have hf2 := h_phase2 (f0 := fault) w r1 hf1
   rw [h2] at hf2
